@@ -147,8 +147,9 @@ A_MACROS = [
     A_COMMON[0],
     'A-dep: syn / proc_macro2 types are stubs (contracts/macros_stub.rs): an identifier or token stream is abstracted by its text; to_string() is a function of that text; clone preserves it. '
     'evaluate_cfgs / is_cfg_enabled are verified (an item is enabled iff every one of its predicates is true in the lookup table) under the caller assumption that every predicate decorating an item is a key of the table '
-    '(decl_cfgs_known / cfgs_known; justified by the verified collection functions collect_all_cfg_predicates / get_cfg_predicates - complete, sound, pairwise distinct - plus A-zip: '
-    'the loop of ParseCfgDecorated::parse, which inserts one table entry per collected predicate, is syn parser code and not under contract).',
+    '(decl_cfgs_known / cfgs_known). That assumption is discharged by the verified collection functions collect_all_cfg_predicates / get_cfg_predicates (complete, sound, pairwise distinct) and the verified table-building tail of '
+    'ParseCfgDecorated::parse (R-zipslice: sliced from `let mut predicates = ..` on; R-zip: `for (p, s) in X.drain(..).zip(Y)` -> index loop over the shorter length; its `assert!(predicates.len() == states.len())` is a listed consistency guard): '
+    'the i-th collected predicate maps to the i-th boolean. What precedes the slice (syn ParseStream code producing `states` and `inner`) is outside.',
     'A-derive: the derived Clone impls of the parse types (ParseQueryParam, ParseQueryParamType, ParseAttributeCfg) are field-wise (the derives are dropped by R-derive and replaced by trusted stand-ins).',
     'A-std: String obeys the HashMap key model and is determined by its content (axiom_string_obeys_key_model, axiom_string_ext; vstd has the key-model axiom for the primitive types only); Vec::drain(..) consumed by a for loop yields the elements in order (R-drain).',
     'Caller assumptions (preconditions of bind_query_params): the parser never produces the reserved parameter variants Option/With/Without; archetype names of one world are pairwise distinct.',
